@@ -7,6 +7,7 @@ import (
 	"encoding/binary"
 	"encoding/json"
 	"fmt"
+	"net"
 	"os"
 	"os/exec"
 	"path/filepath"
@@ -1150,13 +1151,17 @@ func init() {
 		},
 		ChunkSize:    2,
 		ChildTimeout: 900,
-		Rule:         "three in four cases are scripts of 2-5 Save/Delete operations on 1-3 keys (client identifier, both publish ranges, marker range, highest key; first writes, overwrites, deletes of present and absent keys; values 12 B-4 MiB in 1-3 buffers) run by a helper process built from the working tree (one locked OS thread) under strace: (1) an uninterrupted run gives the helper's own system call sequence; (2) one run per system call of every operation (and per marker write around it) with SIGKILL injected at the entry of that call (= stop after the previous one), then a FRESH process lists and loads: every key must hold its complete previous or complete new value (sha256), other keys the model value, every listed key must load, no key twice; (3) stops inside the data write at byte counts {1, half, buffer boundary +-1, all but one} through RLIMIT_FSIZE with the retry write killed, and the same limit without the kill as a write error after partial progress; after every stop inside a Save a further fresh process saves a shorter value under that key and another one reads it back: exactly the new value, nothing of what the stop left behind; (4) an error injected at each openat/write/fsync/close/renameat/unlinkat: the reported outcome drives the model, the final state must equal it; (5) for every Save that reported success, in all of these runs, the call order is checked: data written to a name List does not report, a successful fsync after the last write, only then rename onto the key. One in four cases runs 1-4 writer goroutines (one per key; half of the time two of the keys are an outbound record and the reception marker of the same packet identifier), 1-8 readers and 1-3 listers on the real store under the race detector and checks the recorded history with porcupine against a per-key register (reads return complete values only), List against the presence intervals. Non-trivial: a kill or error that landed inside an operation; distinct by (system call, operation, size class, cut class).",
+		Rule:         "three in four cases are scripts of 2-5 Save/Delete operations on 1-3 keys (client identifier, both publish ranges, marker range, highest key; first writes, overwrites, deletes of present and absent keys; values 12 B-4 MiB in 1-3 buffers) run by a helper process built from the working tree (one locked OS thread) under strace: (1) an uninterrupted run gives the helper's own system call sequence; (2) one run per system call of every operation (and per marker write around it) with SIGKILL injected at the entry of that call (= stop after the previous one), then a FRESH process lists and loads: every key must hold its complete previous or complete new value (sha256), other keys the model value, every listed key must load, no key twice; (3) stops inside the data write at byte counts {1, half, buffer boundary +-1, all but one} through RLIMIT_FSIZE with the retry write killed, and the same limit without the kill as a write error after partial progress; after every stop inside a Save a further fresh process saves a shorter value under that key and another one reads it back: exactly the new value, nothing of what the stop left behind; (4) an error injected at each openat/write/fsync/close/renameat/unlinkat: the reported outcome drives the model, the final state must equal it; (5) for every Save that reported success, in all of these runs, the call order is checked: data written to a name List does not report, a successful fsync after the last write, only then rename onto the key. One in four cases runs 1-4 writer goroutines (one per key; half of the time two of the keys are an outbound record and the reception marker of the same packet identifier), 1-8 readers and 1-3 listers on the real store under the race detector and checks the recorded history with porcupine against a per-key register (reads return complete values only), List against the presence intervals. One case in sixteen stores 513-2,012 keys among 600 foreign files and compares List with what is there, before and after deleting a third. Non-trivial: a kill or error that landed inside an operation; distinct by (system call, operation, size class, cut class).",
 		Assumptions: []string{
 			"a killed process keeps the page cache: 'flushed before visible' is observed as system call order (successful fsync before rename), not as bytes surviving power loss",
 			"strace injects the signal at system call entry, so the stop lies between two system calls; RLIMIT_FSIZE places it inside the data write",
 			"each key has one mutating goroutine at a time, as in the client (sequence lock per level, read routine for markers)",
 		},
 		Run: func(c *run.Ctx) {
+			if c.Case%16 == 11 {
+				c19ManyKeys(c)
+				return
+			}
 			if c.Case%4 == 3 {
 				c19Concurrent(c)
 				return
@@ -1164,4 +1169,85 @@ func init() {
 			c19Script(c)
 		},
 	})
+}
+
+// c19ManyKeys fills the directory with more entries than any batch of a
+// directory read holds and compares List with what is there.
+func c19ManyKeys(c *run.Ctx) {
+	work := filepath.Join(run.Root, "work", "C19")
+	os.MkdirAll(work, 0o755)
+	dir, err := os.MkdirTemp(work, fmt.Sprintf("many%d-", c.Case))
+	if err != nil {
+		c.Inconclusive(err.Error())
+		return
+	}
+	defer os.RemoveAll(dir)
+	store := mqtt.FileSystem(dir)
+	n := 513 + c.Rng.Intn(1500)
+	present := map[uint]bool{}
+	for len(present) < n {
+		k := uint(c.Rng.Intn(0x20000))
+		if present[k] {
+			continue
+		}
+		if err := store.Save(k, net.Buffers{[]byte(fmt.Sprintf("value of %05x", k))}); err != nil {
+			c.Inconclusive("Save failed: " + err.Error())
+			return
+		}
+		present[k] = true
+	}
+	// foreign files in between
+	for i := 0; i < 600; i++ {
+		os.WriteFile(filepath.Join(dir, fmt.Sprintf("foreign-%d.txt", i)), []byte("x"), 0o600)
+	}
+	check := func(when string) bool {
+		keys, err := store.List()
+		if err != nil {
+			c.Violate("list-fails", fmt.Sprintf("List %s: %v", when, err), nil)
+			return false
+		}
+		got := map[uint]int{}
+		for _, k := range keys {
+			got[k]++
+		}
+		missing, extra, twice := 0, 0, 0
+		for k := range present {
+			if got[k] == 0 {
+				missing++
+			}
+		}
+		for k, m := range got {
+			if !present[k] {
+				extra++
+			}
+			if m > 1 {
+				twice++
+			}
+		}
+		if missing+extra+twice != 0 {
+			c.Violate("list-differs-from-content", fmt.Sprintf("List %s with %d keys stored: %d missing, %d that are not there, %d reported twice", when, len(present), missing, extra, twice), nil)
+			return false
+		}
+		return true
+	}
+	if !check("after the saves") {
+		return
+	}
+	del := 0
+	for k := range present {
+		if del >= n/3 {
+			break
+		}
+		if err := store.Delete(k); err != nil {
+			c.Inconclusive("Delete failed: " + err.Error())
+			return
+		}
+		delete(present, k)
+		del++
+	}
+	if !check("after deleting a third") {
+		return
+	}
+	c.Count("keys_listed_in_large_directories", len(present))
+	c.Trigger("many-keys")
 }
